@@ -169,7 +169,13 @@ func symModel(k SymCase) (*refsym.Context, []ion.SharedSymbolTable) {
 	ctx := refsym.System()
 	var imps []ion.SharedSymbolTable
 	for _, im := range k.Imports {
-		sst := ion.NewSharedSymbolTable(im.Name, im.Version, im.Symbols)
+		symsArg := append(make([]string, 0, len(im.Symbols)+3), im.Symbols...)
+		sst := ion.NewSharedSymbolTable(im.Name, im.Version, symsArg)
+		// (the caller re-uses its slice: the table must not notice)
+		for i := range symsArg {
+			symsArg[i] = "overwritten_by_caller"
+		}
+		_ = append(symsArg, "appended_by_caller")
 		n := int64(len(im.Symbols))
 		if im.MaxID >= 0 {
 			n = im.MaxID
@@ -197,9 +203,24 @@ func runSymCase(k SymCase) (verdict string) {
 	switch k.Via {
 	case "api":
 		ctx, imps := symModel(k)
-		st := ion.NewLocalSymbolTable(imps, k.Locals)
+		localsArg := append(make([]string, 0, len(k.Locals)+4), k.Locals...)
+		impsArg := append(make([]ion.SharedSymbolTable, 0, len(imps)+2), imps...)
+		st := ion.NewLocalSymbolTable(impsArg, localsArg)
 		if v := compareTable(st, ctx, k.Locals, true); v != "" {
 			return v
+		}
+		// a table is a value of its own: the caller re-using the slices it passed in must not reach it
+		// (a text looked up has to keep giving the id that gives back the text)
+		for i := range localsArg {
+			localsArg[i] = "overwritten_by_caller"
+		}
+		_ = append(localsArg, "appended_by_caller")
+		for i := range impsArg {
+			impsArg[i] = ion.NewSharedSymbolTable("overwritten_by_caller", 1, []string{"zz1", "zz2", "zz3"})
+		}
+		_ = append(impsArg, ion.NewSharedSymbolTable("appended_by_caller", 1, []string{"yy"}))
+		if v := compareTable(st, ctx, k.Locals, true); v != "" {
+			return "after the caller re-used the slices it had passed to NewLocalSymbolTable: " + v
 		}
 		// the shared tables themselves
 		for i, im := range k.Imports {
